@@ -140,11 +140,22 @@ Proof. split; reflexivity. Qed.
 Lemma implicit_bin_output stem suf : lower suf = s ".mac" ->
   cli_outputs (stem ++ suf) [] None true = Some [o_option_output (stem ++ s ".bin")].
 Proof.
-  intros H. unfold cli_outputs. cbn [existsb map app]. rewrite (strip_suffix_ci_hit _ _ _ H). reflexivity.
+  intros H. unfold cli_outputs, effective_outfile. cbn [existsb map app]. rewrite (strip_suffix_ci_hit _ _ _ H). reflexivity.
 Qed.
 
 Lemma no_implicit_bin_with_directive first e rest :
   existsb e_error (e :: rest) = false ->
   cli_outputs first (e :: rest) None true =
   Some (map (fun e => {| o_dest := ToFile (e_path e); o_format := e_format e; o_tape_name := e_name e |}) (e :: rest)).
-Proof. intros H. unfold cli_outputs. rewrite H. rewrite app_nil_r. reflexivity. Qed.
+Proof. intros H. unfold cli_outputs, effective_outfile. rewrite H. rewrite app_nil_r. reflexivity. Qed.
+
+(* an explicit -o always wins over --implicit-bin, with or without directives *)
+Lemma o_option_wins first emitted_list o implicit_bin :
+  effective_outfile first emitted_list (Some o) implicit_bin = Some o.
+Proof. unfold effective_outfile. destruct emitted_list; reflexivity. Qed.
+
+Lemma o_option_written first emitted_list o implicit_bin : existsb e_error emitted_list = false ->
+  cli_outputs first emitted_list (Some o) implicit_bin =
+  Some (map (fun e => {| o_dest := ToFile (e_path e); o_format := e_format e; o_tape_name := e_name e |}) emitted_list
+        ++ [o_option_output o]).
+Proof. intros H. unfold cli_outputs. rewrite H, o_option_wins. reflexivity. Qed.
